@@ -67,6 +67,10 @@ class Job:
         self.maxdepth = maxdepth
         self.keep = keep
         self.script = script
+        # SLOW_STOCH and PPO smooth an ill-conditioned ratio: their tolerance at step t depends on the worst conditioning of ALL
+        # earlier steps, so these kinds get the expectation of every step of the path, not only of the last one
+        if emit == "EmitLast" and any(c["kind"] in ("SLOW_STOCH", "PPO") for c in cfgs.values()):
+            emit = "Emit"
         self.emit = emit
         self.invariants = list(invariants)
         self.noovf = noovf
